@@ -109,7 +109,7 @@ func SpecStream(i int) byte { panic("abstract spec function") }
 
 //@ func Decoder.decodeBulkBytes
 //@   arith int
-//@   properties C12
+//@   properties C12 C01
 //@   replay client_Decoder
 //@   ghost var pos mathint
 //@   ghost var unread mathint
@@ -121,6 +121,7 @@ func SpecStream(i int) byte { panic("abstract spec function") }
 //@   ensures lossless: result1 == nil && result0 != nil ==> (forall j int :: 0 <= j && j < len(result0) ==> result0[j] == SpecStream(pos - 2 - len(result0) + j))
 //@   ensures crlf: result1 == nil && result0 != nil ==> SpecStream(pos - 2) == '\r' && SpecStream(pos - 1) == '\n'
 //@   ensures unread_same: unread == old(unread)
+//@   ensures the_argument_bytes_are_a_private_copy [C01 C12]: result1 == nil && result0 != nil ==> fresh(result0)
 
 //@ func Decoder.decodeArray
 //@   arith int
